@@ -22,6 +22,7 @@ EXPLANATION = (
     "callee is Job.init."
     ' Data read from a state point file is not *used* (in-memory update, return, registration) before the comparison; check() validates job by job (not through one bulk map call); repair() looks state points up cache-first; its loops carry nothing between jobs.'
     ' (g) What _read_cache reads from the file overrides unvalidated entries in memory (repair relies on it).'
+    ' check() written with all(map(...)) / any(map(...)) is read as the short-circuiting loop it is (a break after the first corrupted job is a violation).'
 )
 UNDECIDED = ("Detection for every byte-level damage depends on json and MD5 semantics and is not decided; nor is the "
              "content of documents / data files after repair (only that repair has no code that touches them).")
